@@ -569,8 +569,11 @@ void tickit_term_set_output_buffer(TickitTerm *tt, size_t len)
 
 void tickit_term_set_input_fd(TickitTerm *tt, int fd)
 {
-  if(tt->termkey)
+  if(tt->termkey) {
     termkey_destroy(tt->termkey);
+    /* get_termkey() below makes a new one for the new descriptor */
+    tt->termkey = NULL;
+  }
 
   tt->infd = fd;
   (void)get_termkey(tt);
